@@ -24,7 +24,10 @@ open Carquet.Spec Carquet.Proofs.SpecWriter Carquet.Proofs.WriterTable
 /-- The schema: at least one column; flat REQUIRED / OPTIONAL / REPEATED columns (everything
 `carquet_schema_add_column` can build at the top level); a FIXED_LEN_BYTE_ARRAY column has a positive
 length; and the schema fits the C structures and the Thrift parser's limits (fewer than 10000
-columns, names that are C strings — NUL-free, shorter than 2^31 —, `type_length` an `int32_t`). -/
+columns, names that are C strings — NUL-free, shorter than 2^31 —, `type_length` an `int32_t`, the
+parameters of a column's logical type within the members of `carquet_logical_type_t`: `int32_t` scale and
+precision, `int8_t` bit_width).  Any logical type — every id, any parameters in those ranges, a NULL
+pointer, id UNKNOWN — is allowed on any column: see Properties/C05/WLogical.lean. -/
 structure SchemaOk (cols : List Col) : Prop where
   nonEmpty : cols ≠ []
   colsOk : ∀ c ∈ cols, ColOk c
@@ -128,7 +131,7 @@ theorem C05_spec_reader_reads_footer (md : FooterData) (hok : Carquet.Proofs.Fil
 
 /-- non-vacuity of the page / chunk statements: a Snappy page of an OPTIONAL INT32 column with one
 null and statistics -/
-private def exCol : Col := ⟨"a", .int32, .optional, 0⟩
+private def exCol : Col := ⟨"a", .int32, .optional, 0, none⟩
 private def exPage : Page :=
   { values := [[1, 0, 0, 0], [2, 0, 0, 0]], defs := [1, 0, 1], numValues := 3, numNulls := 1,
     minMax := some ([1, 0, 0, 0], [2, 0, 0, 0]) }
@@ -145,7 +148,7 @@ example : Carquet.Proofs.FileRealFooter.footerOk
 /-! ### non-vacuity: a two-column, two-row-group history (OPTIONAL INT32 with a null and page
 statistics, REQUIRED BOOLEAN), Snappy-compressed, satisfies every hypothesis -/
 
-private def exCols : List Col := [⟨"a", .int32, .optional, 0⟩, ⟨"b", .boolean, .required, 0⟩]
+private def exCols : List Col := [⟨"a", .int32, .optional, 0, none⟩, ⟨"b", .boolean, .required, 0, none⟩]
 private def exOps : List Op :=
   [.batch ⟨0, 3, some [1, 0, 1], [[1, 0, 0, 0], [2, 0, 0, 0]], none⟩, .batch ⟨1, 3, none, [[1], [0], [1]], none⟩, .newRowGroup,
    .batch ⟨0, 1, none, [[7, 0, 0, 0]], none⟩, .batch ⟨1, 1, none, [[0]], none⟩]
@@ -154,7 +157,7 @@ private theorem exSchemaOk : SchemaOk exCols :=
   ⟨by decide, fun c hc => by
     simp only [exCols, List.mem_cons, List.mem_nil_iff, or_false] at hc
     rcases hc with rfl | rfl <;> exact ⟨by decide⟩,
-   ⟨by decide, by decide +kernel, by decide⟩⟩
+   ⟨by decide, by decide +kernel, by decide, by decide⟩⟩
 
 private theorem exHistOk : HistOk exCols exOps := by
   refine ⟨?_, ?_, by decide +kernel, by decide +kernel⟩
@@ -190,7 +193,7 @@ second batch continues the last list, i.e. a batch, and with page size 1 a page,
 then two one-element lists written with NULL level pointers) next to a REQUIRED column, two row
 groups, LZ4_RAW -/
 
-def rpCols : List Col := [⟨"l", .int32, .repeated, 0⟩, ⟨"k", .int32, .required, 0⟩]
+def rpCols : List Col := [⟨"l", .int32, .repeated, 0, none⟩, ⟨"k", .int32, .required, 0, none⟩]
 def rpOps : List Op :=
   [.batch ⟨0, 4, some [1, 1, 0, 1], [[1, 0, 0, 0], [2, 0, 0, 0], [3, 0, 0, 0]], some [0, 1, 0, 0]⟩,
    .batch ⟨0, 1, none, [[4, 0, 0, 0]], some [1]⟩,
@@ -202,7 +205,7 @@ theorem rpSchemaOk : SchemaOk rpCols :=
   ⟨by decide, fun c hc => by
     simp only [rpCols, List.mem_cons, List.mem_nil_iff, or_false] at hc
     rcases hc with rfl | rfl <;> exact ⟨by decide⟩,
-   ⟨by decide, by decide +kernel, by decide⟩⟩
+   ⟨by decide, by decide +kernel, by decide, by decide⟩⟩
 
 theorem rpHistOk : HistOk rpCols rpOps := by
   refine ⟨?_, ?_, by decide +kernel, by decide +kernel⟩
@@ -244,7 +247,7 @@ Witness (corpus/C05/fixed-F64-repeated-first-column-rows.ops): one REPEATED INT3
 holding ONE row, the list [1, 2] (two entries, repetition levels 0 1).  Every call returned OK; the
 footer said `num_rows = 2`; the independent reader rejects the file. -/
 
-private def f62Cols : List Col := [⟨"c0", .int32, .repeated, 0⟩]
+private def f62Cols : List Col := [⟨"c0", .int32, .repeated, 0, none⟩]
 private def f62Ops : List Op := [.batch ⟨0, 2, some [1, 1], [[1, 0, 0, 0], [2, 0, 0, 0]], some [0, 1]⟩]
 /-- the FileMetaData the pinned code assembled: one row group, `num_rows` 2 -/
 private def f62Md : FooterData := ⟨f62Cols, "Carquet", 2, [⟨2, 59, 4, 59, 0, [⟨4, .int32, 0, 2, 59, 59, "c0"⟩]⟩]⟩
@@ -279,7 +282,7 @@ example : Spec.File.read (fileOf (deps []) f62Cols 0 1048576 "Carquet" f62Ops).1
   C05_spec_reader_accepts_writer f62Cols 0 1048576 f62Ops (by decide)
     ⟨by decide, fun c hc => by
       simp only [f62Cols, List.mem_cons, List.mem_nil_iff, or_false] at hc; subst hc; exact ⟨by decide⟩,
-     ⟨by decide, by decide +kernel, by decide⟩⟩
+     ⟨by decide, by decide +kernel, by decide, by decide⟩⟩
     ⟨fun b hb => by
       simp only [f62Ops, List.mem_cons, Op.batch.injEq, List.mem_nil_iff, or_false] at hb; subst hb
       exact ⟨by decide, (by intro ds h; cases h <;> rfl), (by intro rs h; cases h <;> rfl)⟩,
